@@ -235,8 +235,7 @@ pub fn run(ctx: &Ctx, rep: &mut Report) {
         let schema_desc = merged.defs.iter().find_map(|d| if let TsDef::Schema(s) = d { s.desc.clone() } else { None });
         let intro = introspect(&ix, schema_desc.as_ref(), style, &mut rng);
         let intro_text = if rng.coin() { serde_json::to_string_pretty(&intro).unwrap() } else { intro.to_string() };
-        let docs_glob = ["./ops/**/*.graphql".to_string(), "./shared/*.graphql".to_string()];
-        let cfg_json = proj.config.render(&["./schema/introspection.json".to_string()], &docs_glob);
+        let cfg_json = proj.config.render(&["./schema/introspection.json".to_string()], &proj.doc_globs);
         let is_cfg = |p: &str| p.contains("graphql.config");
         let mut files_json: Vec<(String, String)> = proj.files.iter().filter(|(p, _)| !proj.schema_paths.contains(p) && !is_cfg(p)).cloned().collect();
         files_json.push((format!("{}/schema/introspection.json", proj.root), intro_text));
